@@ -39,10 +39,6 @@ ALL_SIZES = "{12, 19, 20, 26, 28, 30, 36, 1199, 1200, 1201}"
 ALL_CLK = "{0, 1, 125, 1000, 7999, 8000, 64500}"
 
 
-def tla_set(xs):
-    return "{" + ", ".join(str(x) for x in xs) + "}"
-
-
 def to_script(beh, level, base, icpt_max=0):
     """A generated behaviour (list of add/build events) -> executable script."""
     steps = []
